@@ -1,28 +1,29 @@
-"""C07 -- HSFZ demultiplexing under any segmentation and interleaving."""
+"""C06 -- DoIP demultiplexing under any segmentation and interleaving; routing activation."""
 import os
 
 INFO = {
     "level": "model_checking",
     "bounds": {
-        "quick": "(cut only in scripts of <= 2 frames) gateway scripts of <= 3 frames over {ack, ack with wrong echo / wrong address / full echo, data, second data, foreign data (src / dst), alive check, "
-                 "short frames, status / error control words}; frame instants symbolic (non-decreasing, 0..3 s), one frame cut at a symbolic offset with a symbolic gap, "
-                 "ack timeout symbolic 1..2000 ms in two scripts; client: write then 1-2 reads with 1 s timeout; header codec with symbolic bytes",
+        "quick": "routing activation: source address 0..0xFFFF, all 256 activation types, all 256 response codes, protocol versions 1..3, response instant symbolic; "
+                 "gateway scripts of <= 3 frames over {pos. ack (full / empty / prefix echo), ack with wrong echo / wrong address, neg. ack TargetUnreachable / UnknownTargetAddress, "
+                 "diagnostic message, second one, foreign ones (src / dst), alive-check request, unknown payload type}; frame instants symbolic (non-decreasing, 0..3 s), one frame "
+                 "cut at a symbolic offset with a symbolic gap (scripts of <= 2 frames), whole stream coalesced and cut at a symbolic offset (5 scripts); client: write then 1-2 reads "
+                 "with 1 s timeout; header codec with symbolic bytes",
         "thorough": "scripts of 4 frames, every frame of a script cut in turn",
     },
-    "stubs": ["TCP -> StreamReader/StreamWriter on a fake transport, scripted gateway on the virtual-time loop", "HSFZConfig (pydantic) concrete", "logger.* stripped"],
-    "outside": ["kernel TCP", "frame kinds are concrete per obligation (control words flow into class patterns which ignore symbolic values)", "more than one cut per script"],
+    "stubs": ["TCP -> StreamReader/StreamWriter on a fake transport (asyncio.open_connection patched), scripted gateway on the virtual-time loop", "DoIPConfig (pydantic) concrete", "logger.* stripped"],
+    "outside": ["kernel TCP, TLS, UDP discovery", "frame kinds are concrete per obligation", "more than one cut per script", "URI text -> DoIPConfig (pydantic; C20)"],
     "assumptions": ["ties (frame complete exactly at a deadline) unconstrained"],
 }
 
 SCRIPTS = [
-    ("ack_data", ["ack", "data"], 1), ("data_ack", ["data", "ack"], 1), ("alive_ack_data", ["alive", "ack", "data"], 1),
-    ("ack_alive_data", ["ack", "alive", "data"], 1), ("ack_foreign_data", ["ack", "foreign", "data"], 1),
+    ("ack_data", ["ack", "data"], 1), ("data_ack", ["data", "ack"], 1), ("noecho_data", ["ack_noecho", "data"], 1), ("prefix_data", ["ack_prefix", "data"], 1),
+    ("alive_ack_data", ["alive", "ack", "data"], 1), ("ack_alive_data", ["ack", "alive", "data"], 1), ("ack_foreign_data", ["ack", "foreign", "data"], 1),
     ("ack_foreigndst_data", ["ack", "foreign_dst", "data"], 1), ("wrongecho_ack_data", ["ack_wrong_echo", "ack", "data"], 1),
-    ("wrongaddr_data", ["ack_wrong_addr", "data"], 1), ("fullecho", ["ack_full_echo"], 0), ("ack_short0_data", ["ack", "short0", "data"], 1),
-    ("short1_ack_data", ["short1", "ack", "data"], 1), ("error", ["error"], 0), ("ack_error", ["ack", "error"], 1), ("status_ack", ["status", "ack"], 0),
-    ("silence", [], 0), ("ack_data_data2", ["ack", "data", "data2"], 2), ("data_ack_data2", ["data", "ack", "data2"], 2),
-    ("alive_only", ["alive"], 0), ("ack_data_alive", ["ack", "data", "alive"], 2),
-    ("shortecho", ["ack_short_echo"], 0), ("emptyecho_ack_data", ["ack_empty_echo", "ack", "data"], 1),
+    ("wrongaddr_data", ["ack_wrong_addr", "data"], 1), ("unreachable_data", ["nack_unreachable", "data"], 1), ("nack", ["nack_unknown_target"], 0),
+    ("unknown_ack_data", ["unknown", "ack", "data"], 1), ("silence", [], 0), ("ack_data_data2", ["ack", "data", "data2"], 2),
+    ("data_ack_data2", ["data", "ack", "data2"], 2), ("alive_only", ["alive"], 0), ("ack_data_alive", ["ack", "data", "alive"], 2),
+    ("ack_alive", ["ack", "alive"], 1), ("data_unreachable", ["data", "nack_unreachable"], 1),
 ]
 
 TPL = '''
@@ -39,25 +40,25 @@ def {name}({tparams}off: int, gap: int, ato: int) -> bool:
 
 
 def obligations(tier, scratch):
-    from checks import c07_lib
+    from checks import c06_lib
 
     quick = tier == "quick"
-    path = os.path.join(scratch, "gen_c07.py")
-    src = ["from checks.c07_lib import run, run_coalesced, codec", ""]
+    path = os.path.join(scratch, "gen_c06.py")
+    src = ["from checks.c06_lib import run, run_coalesced, codec, activation", ""]
     obs = []
     for tag, script, reads in SCRIPTS:
         n = len(script)
-        sym_ato = tag in ("ack_data", "silence", "data_ack")
+        sym_ato = False
         if n == 0:
             splits = [None]
         elif not quick:
             splits = list(range(n))
         else:
-            splits = [None] + ([n - 1] if tag in ("ack_data", "data_ack", "error", "alive_only") else [])
+            splits = [None] + ([n - 1] if tag in ("ack_data", "data_ack", "nack", "alive_only") else [])
         for sp in splits:
             ts = [f"t{i}" for i in range(n)]
             order = " <= ".join(["0"] + ts + ["3000000"]) if n else "True"
-            maxoff = 0 if sp is None else len(c07_lib.F(script[sp])) - 1
+            maxoff = 0 if sp is None else len(c06_lib.F(script[sp])) - 1
             parts = 1 if sp is None else 4
             for q in range(parts):
                 lo = 0 if sp is None else 1 + (maxoff * q) // parts
@@ -75,7 +76,7 @@ def obligations(tier, scratch):
             continue
         if quick and tag not in ("ack_data", "data_ack", "alive_ack_data", "data_ack_data2", "ack_foreign_data"):
             continue
-        total = sum(len(c07_lib.F(k)) for k in script)
+        total = sum(len(c06_lib.F(k)) for k in script)
         parts = 4
         for q in range(parts):
             lo = (total + 1) * q // parts
@@ -103,7 +104,22 @@ def header_codec(b: bytes) -> bool:
     return codec(b)
 ''')
     obs.append({"name": "header_codec", "module_path": path, "function": "header_codec", "cap": 300, "opaque": True,
-                "meta": {"functions": "HSFZHeader / HSFZDiagReqHeader pack+unpack", "bytes": "8 symbolic"}})
+                "meta": {"functions": "GenericHeader pack+unpack (inverse version rule)", "bytes": "8 symbolic"}})
+    for tag, pre in (("types", "ver == 3 and 0 <= atype <= 255 and code == 16"), ("codes", "ver == 3 and atype == 0 and 0 <= code <= 255"),
+                     ("versions", "1 <= ver <= 3 and atype == 1 and 15 <= code <= 17")):
+        name = f"activation_{tag}"
+        src.append(f'''
+def {name}(srcaddr: int, atype: int, ver: int, code: int, at: int) -> bool:
+    """
+    pre: 0 <= srcaddr <= 0xFFFF
+    pre: {pre}
+    pre: 0 <= at <= 3000000
+    post: _
+    """
+    return activation(srcaddr, atype, ver, code, at)
+''')
+        obs.append({"name": name, "module_path": path, "function": name, "cap": 900, "opaque": True, "twin_cap": 120,
+                    "meta": {"function": "DoIPTransport._connect", "symbolic": "source address, " + tag + ", response instant"}})
     with open(path, "w") as f:
         f.write("\n".join(src))
     return obs
